@@ -43,7 +43,7 @@ var c09Models2 = map[string]sdf.SDF2{}
 // (text / Bezier sampling) draws from a process-wide seeded random source, so the constructed geometry depends on
 // how many shapes were built before - that is construction, not rendering, and is kept identical in every process.
 func c09BuildModels() {
-	for _, m := range []string{"sphere", "csg", "text", "bolt", "stl"} {
+	for _, m := range []string{"sphere", "csg", "text", "bolt", "stl", "twist"} {
 		c09Models3[m] = c09Make3(m)
 	}
 	for _, m := range []string{"circlebox", "text2", "gear"} {
@@ -82,6 +82,19 @@ func c09Make3(name string) sdf.SDF3 {
 			return nil
 		}
 		return s
+	case "twist": // a field that overestimates distances (gradient > 1): nothing may rely on it being a true distance
+		l := sdf.NewPolygon()
+		l.Add(0, 0)
+		l.Add(3, 0)
+		l.Add(3, 1)
+		l.Add(1, 1)
+		l.Add(1, 3)
+		l.Add(0, 3)
+		p, err := sdf.Polygon2D(l.Vertices())
+		if err != nil {
+			return nil
+		}
+		return sdf.TwistExtrude3D(p, 4, 2.5)
 	case "stl":
 		s, err := obj.ImportSTL("/repo/files/teapot.stl", 20, 3, 5)
 		if err != nil {
@@ -140,6 +153,11 @@ func (p *perturb) hit(key uint64) {
 	n := atomic.AddInt64(&p.calls, 1)
 	switch p.policy {
 	case "light": // high-volume renders: count only
+		return
+	case "halfbusy": // value-preserving, but evaluations in one half of space are slow
+		if key&1 == 0 && n%7 == 0 {
+			spin(2 * time.Microsecond)
+		}
 		return
 	case "block": // stall the worker that picked up this batch (every batch of the blocker render)
 		if n%100 == 1 {
@@ -240,13 +258,13 @@ func c09Render(spec c09Spec, policy string, seed uint64, dir string, tag string)
 		// history: an earlier, larger render went to the same output path
 		big := spec
 		big.Cells = spec.Cells * 2
-		c09Render(big, "light", seed, dir, tag[len("reuse-"):])
 		tag = tag[len("reuse-"):]
+		c09Render(big, "light", seed, dir, "pre-"+tag)
 	}
 	pt := &perturb{policy: policy, seed: seed, gids: map[uint64]int{}}
 	res := c09Result{Spec: spec}
 	h := sha256.New()
-	path := filepath.Join(dir, fmt.Sprintf("c09-%s.%s", tag, spec.Sink))
+	path := filepath.Join(dir, fmt.Sprintf("c09-%s.%s", strings.TrimPrefix(tag, "pre-"), spec.Sink))
 	is2D := spec.Renderer == "ms-uniform" || spec.Renderer == "ms-quadtree"
 	if is2D {
 		m := c09Model2(spec.Model)
@@ -330,7 +348,7 @@ func c09Render(spec c09Spec, policy string, seed uint64, dir string, tag string)
 			h.Write([]byte("unreadable:" + err.Error()))
 		}
 	}
-	if !strings.HasPrefix(policy, "light") { // the "earlier render" of a reuse history leaves its file in place
+	if policy != "light" || !strings.HasPrefix(tag, "pre-") { // the "earlier render" of a reuse history leaves its file in place
 		os.Remove(path)
 	}
 	res.Digest = hex.EncodeToString(h.Sum(nil)[:12])
@@ -434,7 +452,7 @@ func checkC09(c *Ctx) {
 		specs = append(specs, c09Spec{m, "mc-uniform", cells, "mem"}, c09Spec{m, "mc-octree", cells, "mem"})
 	}
 	specs = append(specs, c09Spec{"csg", "mc-uniform", 20, "stl"}, c09Spec{"csg", "mc-octree", 20, "stl"}, c09Spec{"sphere", "mc-uniform", 16, "3mf"},
-		c09Spec{"csg", "mc-uniform", 33, "mem"})
+		c09Spec{"csg", "mc-uniform", 33, "mem"}, c09Spec{"twist", "mc-uniform", 40, "mem"}, c09Spec{"twist", "mc-octree", 40, "mem"})
 	for _, m := range []string{"circlebox", "text2", "gear"} {
 		specs = append(specs, c09Spec{m, "ms-uniform", 40, "mem"}, c09Spec{m, "ms-quadtree", 40, "mem"})
 	}
@@ -489,6 +507,15 @@ func checkC09(c *Ctx) {
 	jobs = append(jobs, job{cfg{16, 0, 1, "light"}, []c09Spec{heavy}, 900001})
 	jobs = append(jobs, job{cfg{16, 0, 8, "pressure"}, []c09Spec{heavy, heavy, heavy, heavy, heavy, heavy, heavy, heavy}, 900002})
 	jobs = append(jobs, job{cfg{4, 0, 8, "pressure"}, []c09Spec{heavy, heavy, heavy, heavy, heavy, heavy, heavy, heavy}, 900003})
+	// large meshes (hundreds of thousands of triangles: chunked / parallel collection paths), non-race, several schedules
+	big := c09Spec{"sphere", "mc-octree", c.Pick(200, 300), "mem"}
+	for k, p := range []int{1, 2, 5, 16, 16, 3} {
+		pol := "light"
+		if k >= 2 {
+			pol = "halfbusy"
+		}
+		jobs = append(jobs, job{cfg{p, 0, 1, pol}, []c09Spec{big}, uint64(910000 + k)})
+	}
 	var mu sync.Mutex
 	digests := map[string]map[string]c09Result{} // spec -> digest -> first result
 	fps := map[string]map[string]bool{}
@@ -508,7 +535,7 @@ func checkC09(c *Ctx) {
 			args = append(args, string(b))
 		}
 		useBin := bin
-		if j.cf.policy == "light" || j.cf.policy == "pressure" {
+		if j.cf.policy == "light" || j.cf.policy == "pressure" || j.cf.policy == "halfbusy" {
 			useBin = "" // volume, not race detection
 		}
 		res := runChild(useBin, "c09-run", args, []string{fmt.Sprintf("GOMAXPROCS=%d", j.cf.procs), "GORACE=halt_on_error=0"}, 20*time.Minute)
